@@ -46,13 +46,14 @@ def project(fr, gname):
     ids = np.rint(d).astype(int)
     return {"F": int(fr.fchans), "T": int(fr.tchans), "asc": bool(fr.ascending), "lo": lo if abs(lo_f - lo) < 1e-3 else lo_f,
             "t0": 7 if abs(fr.t_start - T0) < 1e-4 else fr.t_start, "src": str(fr.source_name),
+            "tsoff": (int(round(fr.ts[0] / g["dt"])) if len(fr.ts) and abs(fr.ts[0] / g["dt"] - round(fr.ts[0] / g["dt"])) < 1e-6 else "off-grid"),
             "data": ids.tolist() if d.shape == (fr.tchans, fr.fchans) and np.all(np.abs(d - ids) < 1e-6) else "shape %s / non-integer" % (d.shape,),
             "axes_ok": (len(fr.fs) == fr.fchans and len(fr.ts) == fr.tchans and abs(fr.df - g["df"]) < 1e-9 * g["df"]
                         and abs(fr.dt - g["dt"]) < 1e-9 * g["dt"] and tuple(fr.shape) == (fr.tchans, fr.fchans))}
 
 
 def compare(exp, obs, cls, what):
-    for k in ("F", "T", "asc", "lo", "data"):
+    for k in ("F", "T", "asc", "lo", "data", "tsoff"):
         if exp[k] != obs[k]:
             raise Div(cls, "%s.%s" % (what, k), exp[k], obs[k])
     if not obs["axes_ok"]:
@@ -141,6 +142,19 @@ def replay(beh, gname, workdir, tag):
                     objs[act["o"] - 1].get_waterfall()
                 elif name == "Copy":
                     objs.append(objs[act["o"] - 1].copy())
+                elif name == "Pickle":
+                    import pickle
+                    src_fr = objs[act["o"] - 1]
+                    if k % 2:
+                        objs.append(pickle.loads(pickle.dumps(src_fr)))
+                    else:
+                        pp = os.path.join(workdir, "%s_%d.pickle" % (tag, k))
+                        src_fr.save_pickle(pp)
+                        objs.append(stg.Frame.load_pickle(pp))
+                        os.remove(pp)
+                elif name == "ShiftTs":
+                    fo = objs[act["o"] - 1]
+                    fo.ts = fo.ts + 5 * g["dt"]
                 elif name == "Mutate":
                     objs[act["o"] - 1].data += 500000
                 elif name == "Slice":
@@ -198,7 +212,7 @@ def replay(beh, gname, workdir, tag):
                 msg = str(e)[:200]
             if got_st != exp_st:
                 cls = "C17" if name in ("Slice", "Dedrift", "Integrate") else "C03"
-                raise Div(cls + "|C12" if name == "Copy" else cls, "%s.status" % name, exp_st, got_st if got_st == "ok" else "%s: %s" % (got_st, msg))
+                raise Div(cls + "|C12" if name in ("Copy", "Pickle") else cls, "%s.status" % name, exp_st, got_st if got_st == "ok" else "%s: %s" % (got_st, msg))
             if len(objs) != len(st["objs"]):
                 raise RuntimeError("adapter out of sync with the spec")
             for i, (e, o) in enumerate(zip(st["objs"], objs)):
@@ -207,7 +221,7 @@ def replay(beh, gname, workdir, tag):
                     cls = "C17"
                 elif name == "Load" and newest:
                     cls = "C03"
-                elif name == "Copy" and newest:
+                elif name in ("Copy", "Pickle") and newest:
                     cls = "C12|C03"
                 elif name == "Mutate":
                     cls = "C17|C12"
